@@ -1,4 +1,4 @@
-From Tetl Require Import Lib.Base C19.Slices C19.Model C19.Spec.
+From Tetl Require Import Lib.Base C19.Slices C19.SlicesMix C19.Model C19.ModelMix C19.Spec C19.SpecMix.
 Require Extraction.
 Require Import ExtrOcamlBasic.
 Extraction Language OCaml.
@@ -11,4 +11,6 @@ Extraction "C19_model.ml" wire_anchor
   mds_offset mds_get mds_size mds_empty mda_container_size mda_strided_container_size sub_extents sub_extents_p sub_first sub_last
   mk_span sp_ctor sp_first_s sp_last_s sp_first_d sp_last_d sp_sub_s sp_sub_d sp_index sp_front sp_back sp_size_bytes sp_as_bytes sp_elems all_indices
   product row_major col_major stride_left stride_right dot span_max stride_required
-  extents_all extents_dyn keep_full sub_shape sub_pattern first_ last_ sub_range.
+  extents_all extents_dyn keep_full sub_shape sub_pattern first_ last_ sub_range
+  bval is_const to_slice pair_static strided_static sub_static sub_extents_m
+  msub_shape msub_pattern pair_static_spec strided_count strided_static_spec.
